@@ -128,7 +128,7 @@ Definition gen_u2_state : G u2_state :=
   gen* sid := gnum 32 in gen* ip := gen_wire_string in gen* gp := gnum 32 in gen* qp := gnum 32 in
   gen* nm := gen_wire_string in gen* mp := gen_wire_string in gen* gt := gen_wire_string in gen* maxp := gnum 32 in
   gen* npk := pick 1 [1; 1; 2; 3; 6] in gen* pairs := grepeat (N.to_nat npk) gen_pairs in
-  gen* nplk := pick 1 [0; 1; 1; 2; 3] in
-  gen* big := chance 1 6 in
+  gen* nplk := pick 1 [0; 1; 1; 2; 3; 3; 4] in      (* up to 100 players over four datagrams *)
+  gen* big := chance 1 4 in
   gen* pls := grepeat (N.to_nat nplk) (gen* n := (if big then pick 20 [20; 25] else pick 1 [1; 2; 5]) in grepeat (N.to_nat n) (gen_u2_player big)) in
   gret (mk_u2st sid ip gp qp nm mp gt maxp pairs pls).
